@@ -2,4 +2,4 @@
 # usage: tools/r9_try.sh <prop> <k> [checks...]   (round-9 helper: run checks against sub-agent patch k of property <prop>)
 P=$1; K=$2; shift; shift
 [ $# -eq 0 ] && set -- $P
-sh /verif/tools/try_patch.sh /tmp/r9out/$P/patch$K.diff "$@"
+sh /verif/tools/try_patch.sh /tmp/${R:-r9}out/$P/patch$K.diff "$@"
